@@ -126,7 +126,7 @@ namespace detail
 		static qua<double, Q> call(qua<double, Q> const& q, double s)
 		{
 			qua<double, Q> Result;
-			Result.data = _mm256_mul_pd(q.data, _mm_set_ps1(s));
+			Result.data = _mm256_mul_pd(q.data, _mm256_set1_pd(s));
 			return Result;
 		}
 	};
@@ -150,7 +150,7 @@ namespace detail
 		static qua<double, Q> call(qua<double, Q> const& q, double s)
 		{
 			qua<double, Q> Result;
-			Result.data = _mm256_div_pd(q.data, _mm_set_ps1(s));
+			Result.data = _mm256_div_pd(q.data, _mm256_set1_pd(s));
 			return Result;
 		}
 	};
